@@ -8,7 +8,9 @@ def P(n_quick=20000, n_thorough=2000000, **kw):
 PROPS = {
     "C01": P(rule="pairs from the duration lattice (bounds, k*NPC±δ, ±i64 limits, correlated partners landing on boundaries) and i64 factors; non-trivial = branch tag not ':zero'; distinct input lines are counted",
              assumptions=["Mul/Div<i64> and floor-family go through Duration::total_nanoseconds, whose handling of durations below -1 century (D1) is pinned by the suite: theorems for those ops carry the hypothesis that no operand is in that class"]),
-    "C02": P(), "C03": P(), "C14": P(),
+    "C02": P(rule="counts from the i128 edge set and the duration lattice; raw (i16,u64) parts incl. ns >= NPC; unit counts at each unit's i64 and Duration overflow edges; composed fields up to 2^53; std durations up to u64::MAX s"),
+    "C03": P(rule="pairs from the lattice: equal, opposite, one ns apart, one century apart, the shape (1,x)/(0,NPC-x) of the repaired defect, straddling zero; triples for sort"),
+    "C14": P(rule="durations x steps from the lattice: unit steps, +/- steps, zero step, exact multiples and one off, steps larger than the operand, operands below -1 century (defect class D1)"),
 }
 
 CLAIMS = {
@@ -16,6 +18,18 @@ CLAIMS = {
         "text": "Theorems (Lean 4, all canonical durations / all i64 factors): +, -, unary -, abs return a canonical duration whose value is exactly clamp(true result), never panic; Mul/Div<i64> likewise under the explicit hypothesis that no operand lies in the recorded defect class D1 (total_nanoseconds below -1 century, pinned by the suite). The model is tied to /repo by regenerated constants and by executing model and implementation on lattice-generated inputs; the Lean spec judges the implementation's outputs.",
         "note": "Trusted: Lean kernel + {propext, Classical.choice, Quot.sound}; the hand transcription of ops.rs/mod.rs/timeunits.rs into lean/Hifi/Model/Duration.lean (validated by the correspondence run only on the explored inputs); harness, gen_tables.py, decide.py. Partial on D1 (known finding).",
     },
+}
+CLAIMS["C02"] = {
+    "text": "Theorems: canonical form is unique and in range; from_total/from_parts/from_truncated/unit*i64/compose/std conversions return the canonical duration of the clamped count for ALL inputs; try_truncated/truncated never return a different number, succeed within +/-2 centuries, fail (or give the same-sign bound) outside i64; total_nanoseconds read-back exact outside recorded defect class D1 (pinned by the suite), with a decided counterexample inside it.",
+    "note": "Trusted: Lean kernel + standard axioms; transcription of duration/mod.rs, timeunits.rs, duration/std.rs (validated by correspondence on explored inputs); harness/gen_tables/decide. Partial on D1.",
+}
+CLAIMS["C03"] = {
+    "text": "Theorems for all canonical durations: derived Ord equals the order of the signed counts (total, antisymmetric, transitive, cmp = 0 iff identical); == holds iff counts are equal or exact opposites within one century of zero (so never between different magnitudes); a+b>a iff b>0 away from saturation; min/max pick by count.",
+    "note": "Trusted: Lean kernel + standard axioms; transcription of PartialEq/derived Ord/min/max (validated by correspondence); harness/decide. Unit comparisons and sort are covered by the correspondence run and by the same cmp/eq theorems through unit*1.",
+}
+CLAIMS["C14"] = {
+    "text": "Theorems: the integer spec floor is a multiple of the step, <= d < floor+|s| and the greatest such multiple; zero step gives zero; Duration::floor/ceil/round equal the spec (saturated, ceil from the returned floor, round ties up) for all canonical operands outside recorded defect class D1 (operands more than a century below zero), with a decided counterexample inside it. Epoch versions are definitional wrappers checked by correspondence.",
+    "note": "Trusted: Lean kernel + standard axioms; transcription of floor/ceil/round/approx; harness/decide. Partial on D1 (total_nanoseconds, pinned by the suite).",
 }
 ALL = ["C%02d" % i for i in range(1, 21)]
 NOT_CLAIMED = {p: "model and theorems not built yet in this round (planned, see DESIGN.md §9)" for p in ALL if p not in CLAIMS}
